@@ -264,6 +264,37 @@ Not applicable: that the position lies in the first malformed assignment (nom's 
             }
         }
     }
+    // the text the lexer sees is the source as given: reported offsets and lines are positions in the user's file /
+    // literal, so nothing between reading the source and building the Input may rewrite the text
+    if let Some(f) = m.fns.iter().find(|f| f.name == "try_from" && f.self_ty.as_deref() == Some("AsnSourceUnit")) {
+        let rewriting = ["replace", "replacen", "replace_range", "trim", "trim_start", "trim_end", "trim_matches", "trim_start_matches", "trim_end_matches", "to_lowercase", "to_uppercase", "to_ascii_lowercase", "to_ascii_uppercase", "retain", "remove", "truncate", "push", "push_str", "insert", "insert_str", "lines", "split", "split_whitespace", "filter", "strip_prefix", "strip_suffix", "drain", "chars", "bytes", "from_utf8_lossy", "escape_default", "normalize"];
+        let mut seen: std::collections::BTreeSet<String> = std::collections::BTreeSet::new();
+        let mut work: Vec<&crate::model::FnInfo> = vec![f];
+        let mut n_fns = 0;
+        while let Some(g) = work.pop() {
+            if !seen.insert(g.key.clone()) || n_fns > 12 {
+                continue;
+            }
+            n_fns += 1;
+            ctx.oblige("C17.path", &format!("source-text-unchanged:{}", g.name), true);
+            for mc in model::method_calls_in(&g.block) {
+                let n = mc.method.to_string();
+                if rewriting.contains(&n.as_str()) {
+                    ctx.violate("C17.path", &format!("source-text-rewritten:{}:{}", g.name, n), &g.file, model::line_of(syn::spanned::Spanned::span(&mc)),
+                        &format!("`{}` applies `.{}(..)` to the source text on its way to the lexer: the reported byte offset and line are then positions in the rewritten text, not in the file / literal the user gave (for a CRLF file the offset lands before the error and no longer matches the line)", g.name, n));
+                }
+            }
+            // helpers of the same crate called from here (free fns and associated fns, by unique name)
+            for c in model::calls_in(&g.block) {
+                if let Some(n) = model::callee_name(&c) {
+                    let cands: Vec<&crate::model::FnInfo> = m.fns.iter().filter(|h| h.name == n && h.krate == "rasn-compiler" && h.self_ty.is_none()).collect();
+                    if cands.len() == 1 {
+                        work.push(cands[0]);
+                    }
+                }
+            }
+        }
+    }
     let fi = m.fns.iter().find(|f| f.name == "from" && f.self_ty.as_deref() == Some("Input") && f.trait_.as_deref().map(|t| t.contains("AsnSourceUnit")).unwrap_or(false));
     match fi {
         None => ctx.fail_closed("C17.path", "anchor not found: From<&AsnSourceUnit> for Input"),
